@@ -307,6 +307,32 @@ def prop_hex_one_char_replaced(pos: int, k: int, three: bool) -> bool:
     return True
 
 
+SPECIAL_NUM = ["inf", "-inf", "nan", "Infinity", "1e999", "-1e999", "inf%", "-inf%", "nan%", "1e999%", "9" * 400, "9" * 400 + "%", ".", "-", "+", "e",
+               "1e", "%", "%%", "1%%", "0x10", "1_0", " 5 ", "５", "٣", "1e-400", "--1", "1.2.3", "255.5", "-0.0", "1/2"]
+
+
+def prop_special_numeric_component(k: int, pos: int, four: bool, as_list: bool) -> bool:
+    """
+    A component spelled as one of a fixed list of odd numeric strings (infinities, nan, overflowing exponents, huge digit
+    runs, stray signs/percent signs, non-ASCII digits ...) at a symbolic position of a 3- or 4-element tuple/list and
+    inside rgb()/rgba()/hsl() strings: position and spelling symbolic.
+    pre: 0 <= k < len(SPECIAL_NUM) and 0 <= pos < 4
+    post: _
+    """
+    s = SPECIAL_NUM[k]
+    n = 4 if four else 3
+    if pos >= n:
+        return True
+    items = [10, 20, 30, 0.5][:n]
+    items[pos] = s
+    t = list(items) if as_list else tuple(items)
+    parts = ["10", "20", "30", "0.5"][:n]
+    parts[pos] = s
+    ok = (_color_ok(t) and _color_ok(("rgba(" if four else "rgb(") + ", ".join(parts) + ")") and _color_ok("hsl(" + s + ", 50%, 50%)")
+          and _color_ok("hsl(120, " + s + ", 50%)") and _pair_ok(t, "#ffffff"))
+    return ok
+
+
 def prop_tuple0() -> bool:
     """
     post: _
